@@ -171,7 +171,11 @@ func (d *DeliverResp) IEncode() ([]byte, error) {
 	defer b.Release()
 
 	smgp.WriteHeaderNoLength(d.Header, b)
-	msgID, _ := hex.DecodeString(d.MsgID)
+	// MsgID is the hex form of the ten octets on the wire: anything that is not hex is refused, not cut
+	msgID, err := hex.DecodeString(d.MsgID)
+	if err != nil {
+		return nil, err
+	}
 	b.WriteFixedLenString(string(msgID), 10)
 	b.WriteUint32(d.Result.Data())
 
